@@ -270,8 +270,9 @@ impl Parser {
     // E.name   E.name = V   E.name OP= V   E.name(args)
     //@fn file=yarel/src/compiler.rs path=Parser::dot props=C07,C04
     //@  rewrite R21
-    //@  substx "let previous = $1.clone();" => "let previous = token_clone(&$1);"
-    //@  after_stmt "let previous =" let ghost nm = s.previous.source@; let ghost n0 = s.code().len();
+    //@  subst "s.previous.clone()" => "token_clone(&s.previous)"
+    //@  subst "s.current.clone()" => "token_clone(&s.current)"
+    //@  after_stmt "let#1" let ghost nm = s.previous.source@; let ghost n0 = s.code().len();
     //@  assert @a_property_access_names_the_identifier_after_the_dot at body.end !s.had_error ==> s.names_constant(name as int, nm)
     //@  assert @a_plain_property_expression_reads_the_property at body.end !can_assign ==> s.code().len() >= n0 + 3 && ((s.code().len() == n0 + 3 && s.ends_with_op(OpCode::GetProperty, name as int)) || (s.code()[s.code().len() - 4] == opcode_byte(OpCode::Invoke) && u16_of(s.code()[s.code().len() - 3], s.code()[s.code().len() - 2]) == name))
     //@  assert @a_compound_property_assignment_reads_and_writes_the_same_property after_stmt "s.binary_assign(" s.code()[n0 as int] == opcode_byte(OpCode::CopyTop) && s.code()[n0 as int + 1] == opcode_byte(OpCode::GetProperty) && u16_of(s.code()[n0 as int + 2], s.code()[n0 as int + 3]) == name
